@@ -75,6 +75,7 @@ def projOf (tbl : List CopyRow) (op : CopyOp) (k : CKind) : KindRow :=
 /-- Python-level kind of a cell, by its tag -/
 def kindOfTag (t : String) : CKind :=
   if t == "Structure" then .structure
+  else if t == "ScratchStructure" then .structure      -- the bare `Structure()` that owns wrappers nested in a collection
   else if t == "ImmutableStructure" then .immStructure
   else if t == "_ListStruct" then .listStruct
   else if t == "_DictStruct" then .dictStruct
@@ -124,7 +125,12 @@ def dcWrapper (rec : Heap → Item → R Item) (strict : Bool) (B : BackRef) (me
       | .memoOrDetach =>
         match memoFind memo o with
         | some n => allocLike h1 (h.cells w).tag (its ++ [(backKey, .ref n)])
-        | none => allocLike h1 (plainTag (h.cells w).tag) its
+        | none =>
+          -- "copied on its own" is said of a wrapper that is the live field value of a real instance; a wrapper
+          -- nested in a collection (owner: a scratch `Structure()`) stays bound to that scratch owner
+          if (h.cells o).tag == "ScratchStructure" then
+            (if strict then (h1, none) else allocLike h1 (h.cells w).tag (its ++ [(backKey, .ref o)]))
+          else allocLike h1 (plainTag (h.cells w).tag) its
       | .memoOrCopyOwner =>
         match memoFind memo o with
         | some n => allocLike h1 (h.cells w).tag (its ++ [(backKey, .ref n)])
